@@ -31,7 +31,7 @@ def cell_class(d, r, s, m):
     return "%s,%s" % (g, "silent" if s else "loud")
 
 
-def make_walk(edges_by_state, macros, rnd):
+def make_walk(edges_by_state, macros, rnd, revisit=2):
     """A walk from (r=0, silent=F) taking every set_level / set_silent transition; all statements at the first visit of a
     configuration, two random ones at later visits."""
     cur = (0, False)
@@ -44,7 +44,7 @@ def make_walk(edges_by_state, macros, rnd):
             for m in macros:
                 script.append(("X", m))
         else:
-            for m in rnd.sample(macros, 2):
+            for m in rnd.sample(macros, revisit):
                 script.append(("X", m))
     visit(cur)
     while any(todo.values()):
@@ -109,7 +109,7 @@ def run(ctx):
     for d in ds:
         libdir, cflags = build.build_lib(ctx.repo, debug_level=d)
         exe = build.build_harness("dbg_probe-d%d" % d, ["dbg_probe.c"], libdir, cflags)
-        script = make_walk(setedges[d], macros, rnd)
+        script = make_walk(setedges[d], macros, rnd, revisit=2 if ctx.tier == "quick" else len(macros))
         path = os.path.join(ctx.rundir, "dbg-%d.txt" % d)
         with open(path, "w") as f:
             for c, a in script:
@@ -117,7 +117,7 @@ def run(ctx):
         from vlib.replay import ASAN_OPTS
         env = dict(os.environ, ASAN_OPTIONS=ASAN_OPTS, LC_ALL="C")
         try:
-            r = subprocess.run([exe, path], capture_output=True, env=env, timeout=900, cwd=ctx.rundir)
+            r = subprocess.run([exe, path], capture_output=True, env=env, timeout=300, cwd=ctx.rundir)
         except subprocess.TimeoutExpired:
             raise Broken("dbg_probe DEBUG=%d timed out" % d)
         out = r.stdout.decode("latin-1").splitlines()
